@@ -38,6 +38,15 @@ CHECKS = {
    text="Lean theorems about the decision model: C20_install_only_if (installed bytes are the platform asset of a listed, non-draft, non-pre-release release strictly newer than the running version, whose checksum file was fetched and lists exactly the SHA-256 of those bytes), C20_else_unchanged, C20_mismatch_not_installed. "
         "Tie: the binary built from the working tree with a version stamp runs `self-update` against a local HTTPS fake of GitHub (HTTPS_PROXY + SSL_CERT_FILE, no code change); installed bytes / unchanged / exit status compared with the model's decision and with an independent expectation. Partial by nature: HTTP, archive decoding and file replacement are exercised, not modelled.",
    design="§7 C20", technique="Lean 4 proof on a decision model + end-to-end run against a fake release service"),
+ "C02": dict(
+   text="Lean theorems, for EVERY text the passes may be given: C02_useHexEscapes_printable and C02_cleanUp_printable (the result is printable ASCII on one line: control, DEL, non-ASCII and invalid bytes only as hex escapes), C02_escapeDoublequotes (after the quote pass every quote is preceded by a backslash), C02_useHexBackslashes (no `\\\\` survives: a literal backslash only as \\x5c), C02_flags_sorted / C02_flags_order_free / C02_finish (flag prefix = `(?` + sorted sublist of [i,s] + `)`, independent of collection order). "
+        "Known finding D09 is proved as a fact of the model (C02_bare_quote_after_escaped_backslash_D09). Not proved: 'no inline flag group survives' and 'parses as RE2' — checked by the lexical oracle on every compiling program. "
+        "Tie: each pass alone and composed (real code via hook) vs the compiled model on synthetic adversarial text (all token bigrams in the thorough tier) incl. the fault class; Operator.Run end to end.",
+   design="§7 C02", technique="Lean 4 proof (per-pass lexical invariants over all texts) + differential correspondence + lexical oracle"),
+ "C19": dict(
+   text="Lean theorems: C19_generate_no_runtime_fault (for every input, include tree, configuration and map order, generate never reaches Fault.runtime — every Go index/slice of the modelled code is a guarded operation in the model — under the hypothesis EngineShape: the engine prints balanced text and answers every query), C19_cleanUp_total (the group scanner findGroupBodyEnd/removeGroup and both flag loops stay in range on balanced text; proved via a left-to-right scanner bal with the escape state of utils.IsEscaped, scanClose_shape/scanClose_of_bal, removeGroup_balanced, and state-preservation lemmas for the four string passes), C19_escaped_paren_is_text (D04 witness). Termination: the model is total. "
+        "Tie: token-level fuzz (directive fragments, metacharacters, escaped parentheses before ?i:, braces, quotes, control and non-ASCII bytes; stdin and include file) through Operator.Run and through the clean-up passes in real code and model — same result or same fault class; binary on stdin (no runtime error text, no timeout); EngineShape monitored on every Join result.",
+   design="§7 C19", technique="Lean 4 proof (unreachability of runtime faults; invariant: balanced text) + token-level differential fuzzing"),
 }
 
 NOT_YET = "check not built yet (work in progress in this round; planned per DESIGN.md §7)"
